@@ -15,46 +15,109 @@ from .srcmodel import AnalysisError, Func, Module
 from .values import ExcVal, FuncRef, Unknown
 
 
-def _module_level_calls(program, target_qual):
-    """(module, Call node) for every module-level expression statement calling ``target_qual``."""
+REGISTRY_TARGETS = ("build_index", "manipulate", "get", "save")
+
+
+class ImportCall:
+    """One call of registry.<target> made while the package is imported (directly at module level or through package functions
+    that module-level code calls)."""
+    __slots__ = ("target", "args", "kwargs", "module", "node", "lineno")
+
+    def __init__(self, target, args, kwargs, module, node):
+        self.target, self.args, self.kwargs, self.module, self.node = target, list(args), dict(kwargs), module, node
+        self.lineno = getattr(node, "lineno", 0)
+
+    def bound(self, program):
+        f = program.get("schwifty.registry." + self.target)
+        params = f.params()
+        b = dict(zip(params, self.args))
+        extra = {}
+        for k, v in self.kwargs.items():
+            (b if k in params else extra)[k] = v
+        return b, extra
+
+
+def import_time_registry_calls(program):
+    """Every call of registry.build_index / manipulate / get / save that happens at import: each module-level statement from which
+    such a call is reachable is evaluated by the abstract evaluator with recording stand-ins for the four functions (the arguments are
+    therefore values, whatever expression or helper function produced them).  Result cached on the program."""
+    cached = getattr(program, "_import_time_registry_calls", None)
+    if cached is not None:
+        return cached
+    from .effects import Effects
+    from .interp import Interp, PathLimit
+    eff = Effects(program)
+    targets = {}
+    for t in REGISTRY_TARGETS:
+        f = program.find("schwifty.registry." + t)
+        if isinstance(f, Func):
+            targets[id(f)] = t
     out = []
     for mname in sorted(program.modules):
         mod = program.modules[mname]
         for st in mod.toplevel:
-            if isinstance(st, ast.Expr) and isinstance(st.value, ast.Call):
-                d = program.resolve_expr(mod, st.value.func)
-                if isinstance(d, Func) and d.qualname == target_qual:
-                    out.append((mod, st.value))
+            if isinstance(st, (ast.FunctionDef, ast.AsyncFunctionDef, ast.ClassDef, ast.Import, ast.ImportFrom)):
+                continue
+            callees = []
+            for n in ast.walk(st):
+                if isinstance(n, ast.Call) and isinstance(n.func, (ast.Name, ast.Attribute)):
+                    d = program.resolve_expr(mod, n.func)
+                    if isinstance(d, Func):
+                        callees.append(d)
+            if not callees:
+                continue
+            reach = eff.reachable(callees)
+            if not any(fid in targets for fid in reach):
+                continue
+            it = Interp(program)
+            rec = []
+            cur = {"node": st}
+
+            def mk(t):
+                def stand_in(it_, args, kwargs, node, t=t):
+                    fr = getattr(it_, "cur_frame", None)
+                    where_mod = fr.module if fr is not None else mod
+                    rec.append(ImportCall(t, args, kwargs, where_mod, node if node is not None else cur["node"]))
+                    return Unknown("registry data") if t in ("get", "save") else None
+                return stand_in
+
+            for t in REGISTRY_TARGETS:
+                it.intrinsics["schwifty.registry." + t] = mk(t)
+            fr = Frame(None, mod, {})
+            try:
+                outs = [o for o in it.explore(lambda: it.exec_stmt(st, fr), max_paths=50) if o.kind != "infeasible"]
+            except (CannotEvaluate, PathLimit) as e:
+                raise AnalysisError(f"{mod.relpath}:{st.lineno}: cannot evaluate import-time code that reaches the registry: {e}")
+            if len(outs) != 1:
+                raise AnalysisError(f"{mod.relpath}:{st.lineno}: import-time code that reaches the registry is not deterministic")
+            if outs[0].kind == "raise":
+                raise AnalysisError(f"{mod.relpath}:{st.lineno}: import-time code raises {outs[0].value.name}")
+            # explore() replays from scratch per path: with one path the recorder ran once
+            out.extend(rec)
+    program._import_time_registry_calls = out
     return out
+
+
+def _module_level_calls(program, target_qual):
+    """(module, node, ImportCall) for every import-time call of ``target_qual`` (a registry function)."""
+    t = target_qual.split(".")[-1]
+    return [(c.module, c.node, c) for c in import_time_registry_calls(program) if c.target == t]
 
 
 def index_specs(facts):
     """Indexes built at import: {index_name: dict(base, key, accumulate, predicate, module, node)}"""
     prog = facts.program
-    it = facts.interp()
     out = {}
-    for mod, call in _module_level_calls(prog, "schwifty.registry.build_index"):
-        fr = Frame(None, mod, {})
-        it.cur_frame = fr
-        try:
-            args = [it.eval(a, fr) for a in call.args]
-            kw = {k.arg: it.eval(k.value, fr) for k in call.keywords}
-        except CannotEvaluate as e:
-            raise AnalysisError(f"{mod.relpath}:{call.lineno}: cannot evaluate build_index arguments: {e}")
-        f = prog.get("schwifty.registry.build_index")
-        params = f.params()
-        bound = dict(zip(params, args))
-        pred = {}
-        for k, v in kw.items():
-            if k in params:
-                bound[k] = v
-            else:
-                pred[k] = v
+    for mod, node, c in _module_level_calls(prog, "schwifty.registry.build_index"):
+        bound, pred = c.bound(prog)
         if "base_name" not in bound or "index_name" not in bound or "key" not in bound:
-            raise AnalysisError(f"{mod.relpath}:{call.lineno}: build_index call shape not understood")
+            raise AnalysisError(f"{mod.relpath}:{c.lineno}: build_index call shape not understood")
+        key = bound["key"]
+        if isinstance(key, list):
+            key = tuple(key)
         out[bound["index_name"]] = {
-            "base": bound["base_name"], "key": bound["key"], "accumulate": bool(bound.get("accumulate", False)),
-            "predicate": pred, "module": mod, "node": call,
+            "base": bound["base_name"], "key": key, "accumulate": bool(bound.get("accumulate", False)),
+            "predicate": pred, "module": mod, "node": node,
         }
     return out
 
@@ -85,17 +148,17 @@ def build_iban_table(facts):
     reg = facts.ctx.registry
     table = copy.deepcopy(reg.countries)
     facts._iban_working = table
-    calls = [(m, c) for m, c in _module_level_calls(prog, "schwifty.registry.manipulate")]
+    calls = [(m, n) for m, n, c in _module_level_calls(prog, "schwifty.registry.manipulate")]
     it = facts.interp()
-    for mod, call in calls:
+    for mod, call, c in _module_level_calls(prog, "schwifty.registry.manipulate"):
         fr = Frame(None, mod, {})
         it.cur_frame = fr
         it.prefix, it.trace, it.events = [], [], []
         try:
-            args = [it.eval(a, fr) for a in call.args]
+            args = list(c.args)
             if not args or args[0] != "iban":
                 continue
-            it.call(FuncRef(prog.get("schwifty.registry.manipulate")), args, {}, call)
+            it.call(FuncRef(prog.get("schwifty.registry.manipulate")), args, dict(c.kwargs), call)
         except CannotEvaluate as e:
             raise AnalysisError(f"{mod.relpath}:{call.lineno}: cannot evaluate import-time manipulation of the IBAN table: {e}")
         except Raised as r:
@@ -113,7 +176,33 @@ def install(it, facts):
     if regmod is None:
         raise AnalysisError("anchor vanished: schwifty.registry")
 
+    def persist(name, value):
+        """Registry data outlives every path: remember the identity of its containers (see Interp._journal)."""
+        done = facts.__dict__.setdefault("_persist_done", set())
+        key = (name, id(value))
+        if key in done:
+            return value
+        done.add(key)
+        ids = facts.__dict__.setdefault("_persistent_ids", set())
+        stack = [value]
+        while stack:
+            x = stack.pop()
+            if isinstance(x, dict):
+                if id(x) in ids:
+                    continue
+                ids.add(id(x))
+                stack.extend(x.values())
+            elif isinstance(x, list):
+                if id(x) in ids:
+                    continue
+                ids.add(id(x))
+                stack.extend(x)
+        return value
+
     def r_get(it_, args, kwargs, node):
+        return persist(args[0] if args else kwargs.get("name"), r_get0(it_, args, kwargs, node))
+
+    def r_get0(it_, args, kwargs, node):
         name = args[0] if args else kwargs.get("name")
         if name == "iban":
             if facts._iban_table is not None:
